@@ -247,3 +247,276 @@ class CreateGtfCopy(Contract):
 
 
 NATIVE = []
+
+
+# ----------------------------------------------------------------------------
+# the metadata of the directory: constructor, fresh metadata, saving
+# ----------------------------------------------------------------------------
+class _IndexDirInit(Contract):
+    """IndexDir(path): the five files of the directory get their fixed names under the given path (five different names); the metadata is read from
+    metadata.json iff that file exists, and is a fresh one (current versions, no pools) otherwise"""
+    path, qualname, props = IDX, 'IndexDir.__init__', ('C12',)
+    exists = True
+
+    def name(self):
+        return f'{self.path}:{self.qualname}[metadata.json {"exists" if self.exists else "does not exist"}]'
+
+    def setup(self, I):
+        st = types.SimpleNamespace(log=[])
+        st.dir = SymObj('IndexDir')
+        st.args = [st.dir, SymObj('DirPath12c')]
+        self._cur = st
+        return st
+
+    @property
+    def models(self):
+        c = self
+
+        def inst(reg):
+            def truediv(I, o, other):
+                if not isinstance(other, str):
+                    raise Unsupported('file name in the index directory is not a literal')
+                return SymObj('DirFile12c', name=other)
+            reg.protocol_('DirPath12c', '__truediv__', truediv)
+            reg.method_('DirFile12c', 'exists', lambda I, o, a, k: (c._cur.log.append(('exists', o.fields['name'])), c.exists)[1])
+            reg.method_('IndexDir', 'load_metadata', lambda I, o, a, k: (c._cur.log.append(('load', None)), SymObj('LoadedMetadata12c'))[1])
+            reg.method_('IndexDir', 'init_metadata', lambda I, o, a, k: (c._cur.log.append(('init', None)), o.fields.__setitem__('metadata', SymObj('FreshMetadata12c')))[1])
+        return (inst,)
+
+    def post_return(self, I, st, ret):
+        f = st.dir.fields
+        names = {a: (f[a].fields['name'] if isinstance(f.get(a), SymObj) and f[a].cls == 'DirFile12c' else None)
+                 for a in ('genome_file', 'annotation_file', 'proteome_file', 'coding_tx_file', 'metadata_file')}
+        I.e.prove('C12/dir/five-files-with-five-different-fixed-names-under-the-given-path',
+                  z3.BoolVal(None not in names.values() and len(set(names.values())) == 5 and names['metadata_file'] == 'metadata.json'))
+        kinds = [x[0] for x in st.log]
+        asked = [x for x in st.log if x[0] == 'exists']
+        I.e.prove('C12/dir/existence-asked-of-the-metadata-file', z3.BoolVal(len(asked) == 1 and asked[0][1] == 'metadata.json'))
+        md = f.get('metadata')
+        if self.exists:
+            I.e.prove('C12/dir/an-existing-metadata-file-is-loaded-and-not-replaced', z3.BoolVal(kinds.count('load') == 1 and 'init' not in kinds and isinstance(md, SymObj) and md.cls == 'LoadedMetadata12c'))
+        else:
+            I.e.prove('C12/dir/without-a-metadata-file-the-metadata-is-fresh', z3.BoolVal(kinds.count('init') == 1 and 'load' not in kinds and isinstance(md, SymObj) and md.cls == 'FreshMetadata12c'))
+
+
+register(type('IndexDirInitExists', (_IndexDirInit,), dict(exists=True, __doc__=_IndexDirInit.__doc__)))
+register(type('IndexDirInitFresh', (_IndexDirInit,), dict(exists=False, __doc__=_IndexDirInit.__doc__)))
+
+
+@register
+class InitMetadata(Contract):
+    """IndexDir.init_metadata(): the metadata becomes a fresh one - the versions of the running environment (MetaVersion()), no canonical pools, no source"""
+    path, qualname, props = IDX, 'IndexDir.init_metadata', ('C12',)
+
+    def setup(self, I):
+        st = types.SimpleNamespace()
+        st.dir = SymObj('IndexDir', metadata=SymObj('OldMetadata12c'))
+        st.args = [st.dir]
+        self._cur = st
+        return st
+
+    @property
+    def models(self):
+        def inst(reg):
+            reg.ctor_('MetaVersion', lambda I, a, k: SymObj('CurrentVersion12c') if not a and not k else SymObj('OtherVersion12c'))
+            reg.ctor_('IndexMetadata', lambda I, a, k: SymObj('IndexMetadata12c', args=list(a), **k))
+        return (inst,)
+
+    def post_return(self, I, st, ret):
+        md = st.dir.fields.get('metadata')
+        ok = isinstance(md, SymObj) and md.cls == 'IndexMetadata12c' and not md.fields.get('args')
+        f = md.fields if ok else {}
+        I.e.prove('C12/init_metadata/current-versions-no-pools-no-source',
+                  z3.BoolVal(bool(ok and isinstance(f.get('version'), SymObj) and f['version'].cls == 'CurrentVersion12c' and f.get('canonical_pools') == [] and f.get('source', 'missing') is None)))
+
+
+@register
+class SaveMetadata(Contract):
+    """IndexDir.save_metadata(): what jsonfy() of the current metadata gives (under its own contract) is dumped as JSON, once, into metadata.json opened
+    for writing as text - the file load_metadata and the constructor read"""
+    path, qualname, props = IDX, 'IndexDir.save_metadata', ('C12',)
+    assumptions = ('assumed: json.dump(data, handle) writes data to the file of the handle',)
+
+    def setup(self, I):
+        st = types.SimpleNamespace(log=[])
+        st.file = SymObj('MetadataFile12c')
+        st.data = SymObj('JsonData12c')
+        st.dir = SymObj('IndexDir', metadata=SymObj('Metadata12c'), metadata_file=st.file, genome_file=SymObj('OtherFile12c'))
+        st.args = [st.dir]
+        self._cur = st
+        return st
+
+    @property
+    def models(self):
+        c = self
+
+        def inst(reg):
+            reg.method_('Metadata12c', 'jsonfy', lambda I, o, a, k: (c._cur.log.append(('jsonfy', None, None)), c._cur.data)[1])
+            reg.ext_('open', lambda I, a, k: (c._cur.log.append(('open', a[0], a[1] if len(a) > 1 else k.get('mode', 'r'))), SymObj('Handle12c', file=a[0]))[1])
+            reg.method_('Handle12c', '__enter__', lambda I, o, a, k: o)
+            reg.method_('Handle12c', '__exit__', lambda I, o, a, k: None)
+            reg.ext_('json.dump', lambda I, a, k: c._cur.log.append(('dump', a[0], a[1] if len(a) > 1 else k.get('fp'))))
+        return (inst,)
+
+    def post_return(self, I, st, ret):
+        opens = [x for x in st.log if x[0] == 'open']
+        dumps = [x for x in st.log if x[0] == 'dump']
+        I.e.prove('C12/save_metadata/metadata.json-opened-once-for-writing-text', z3.BoolVal(len(opens) == 1 and opens[0][1] is st.file and opens[0][2] in ('w', 'wt')))
+        I.e.prove('C12/save_metadata/the-jsonfied-metadata-dumped-once-into-that-file',
+                  z3.BoolVal(len(dumps) == 1 and dumps[0][1] is st.data and isinstance(dumps[0][2], SymObj) and dumps[0][2].fields.get('file') is st.file))
+
+
+# ----------------------------------------------------------------------------
+# the annotation of the directory: copy, index files, loading
+# ----------------------------------------------------------------------------
+from pyvc.interp import LoopSpec
+
+
+class _PtrDict12c:
+    """anno.genes / anno.transcripts of the on-disk annotation: n keys, a pointer per key"""
+    def __init__(self, st, kind):
+        self.st, self.kind = st, kind
+
+    def n(self):
+        return self.st.ng if self.kind == 'gene' else self.st.nt
+
+    def sym_method(self, I, name, a, k):
+        zz = lambda i: i if is_z3(i) else z3.IntVal(i)
+        if name == 'keys' and not a:
+            return FnView(self.n(), lambda i: SymObj('Key12c', kind=self.kind, i=zz(i)), tag=f'{self.kind} ids of the annotation')
+        if name == 'get_pointer' and len(a) == 1 and isinstance(a[0], SymObj) and a[0].cls == 'Key12c' and a[0].fields['kind'] == self.kind:
+            return SymObj('Pointer12c', kind=self.kind, i=a[0].fields['i'])
+        raise Unsupported(f'{self.kind} pointer table.{name}')
+
+
+class _Line12c:
+    def __init__(self, kind, i):
+        self.kind, self.i = kind, i
+
+    def sym_str(self, I):
+        return self
+
+
+@register
+class SaveAnnotation(Contract):
+    """IndexDir.save_annotation(file, source, proteome, ...): the GTF is copied / linked into the directory first (create_gtf_copy, under its own contract,
+    with the symlink choice given); the index is generated from the copy inside the directory with the given source; coding status is checked against the
+    proteome iff one is given, with the flag given; the gene index file gets exactly one line per gene - its pointer printed by to_line plus a line break -
+    in annotation order, the transcript index file likewise one line per transcript; both are the files get_index_files names for the copy; the annotation
+    is returned"""
+    path, qualname, props = IDX, 'IndexDir.save_annotation', ('C12',)
+    with_proteome = True
+
+    def name(self):
+        return f'{self.path}:{self.qualname}[{"with" if self.with_proteome else "without"} a proteome]'
+
+    def setup(self, I):
+        e = I.e
+        st = types.SimpleNamespace(log=[])
+        st.ng, st.nt = e.int('n_genes'), e.int('n_transcripts')
+        e.assume(z3.And(st.ng >= 0, st.nt >= 0))
+        st.copy = SymObj('AnnotationFile12c')
+        st.src_file, st.source, st.flag, st.symlink = SymObj('GivenGtf12c'), SymObj('Source12c'), e.bool('invalid_protein_as_noncoding'), e.bool('symlink')
+        st.proteome = SymObj('Proteome12c') if self.with_proteome else None
+        st.gene_idx, st.tx_idx = SymObj('IdxFile12c', which='gene'), SymObj('IdxFile12c', which='tx')
+        st.dir = SymObj('IndexDir', annotation_file=st.copy, metadata=SymObj('Metadata12c2', source=st.source))
+        st.args = [st.dir, st.src_file]
+        st.kwargs = dict(source=st.source, proteome=st.proteome, invalid_protein_as_noncoding=st.flag, symlink=st.symlink)
+        self._cur = st
+        return st
+
+    @property
+    def models(self):
+        c = self
+
+        def inst(reg):
+            L = lambda *x: c._cur.log.append(x)
+            reg.method_('IndexDir', 'create_gtf_copy', lambda I, o, a, k: L('copy', list(a), dict(k)))
+            reg.ctor_('GenomicAnnotationOnDisk', lambda I, a, k: SymObj('AnnoOnDisk12c', genes=_PtrDict12c(c._cur, 'gene'), transcripts=_PtrDict12c(c._cur, 'tx')))
+            reg.method_('AnnoOnDisk12c', 'generate_index', lambda I, o, a, k: L('generate_index', list(a), dict(k)))
+            reg.method_('AnnoOnDisk12c', 'check_protein_coding', lambda I, o, a, k: L('check', list(a), dict(k)))
+            reg.method_('AnnoOnDisk12c', 'get_index_files', lambda I, o, a, k: (L('index_files', list(a), dict(k)), (c._cur.gene_idx, c._cur.tx_idx))[1])
+            reg.method_('Pointer12c', 'to_line', lambda I, o, a, k: _Line12c(o.fields['kind'], o.fields['i']))
+            reg.ext_('open', lambda I, a, k: (L('open', a[0], a[1] if len(a) > 1 else k.get('mode', 'r')), SymObj('IdxHandle12c', file=a[0]))[1])
+            reg.method_('IdxHandle12c', '__enter__', lambda I, o, a, k: o)
+            reg.method_('IdxHandle12c', '__exit__', lambda I, o, a, k: None)
+            reg.method_('IdxHandle12c', 'write', lambda I, o, a, k: L('write', o.fields['file'], a[0]))
+        return (inst,)
+
+    def head(self, I, env, k):
+        self._cur.mark = len(self._cur.log)
+
+    def mk_step(self, kind):
+        def step(I, env, k):
+            st = self._cur
+            new = st.log[st.mark:]
+            target = st.gene_idx if kind == 'gene' else st.tx_idx
+            ok = len(new) == 1 and new[0][0] == 'write' and new[0][1] is target
+            v = new[0][2] if ok else None
+            ok = ok and isinstance(v, OpaqueStr) and len(v.parts) == 2 and isinstance(v.parts[0], _Line12c) and v.parts[1] == '\n' and v.parts[0].kind == kind
+            return [(f'{kind}-k-written-once-as-the-line-of-its-own-pointer-with-a-line-break-into-the-{kind}-index-file', v.parts[0].i == k if ok else False)]
+        return step
+
+    @property
+    def loops(self):
+        mk = lambda kind, n: LoopSpec(inv=lambda I, env, k: [], on_head=self.head, step=self.mk_step(kind), target_after='unknown',
+                                      on_break=lambda I, env, k: [('every-entry-is-visited', False)],
+                                      on_exit=lambda I, env, m: [('all-entries-were-written', m == n())])
+        return {0: mk('gene', lambda: self._cur.ng), 1: mk('tx', lambda: self._cur.nt)}
+
+    def post_return(self, I, st, ret):
+        e = I.e
+        ev = [x for x in st.log if x[0] != 'write']
+        kinds = [x[0] for x in ev]
+        want = ['copy', 'generate_index'] + (['check'] if self.with_proteome else []) + ['index_files', 'open', 'open']
+        e.prove('C12/save_annotation/copy-then-index-then-coding-check-iff-a-proteome-then-the-two-index-files', z3.BoolVal(kinds == want))
+        if kinds != want:
+            return
+        cp = ev[0]
+        e.prove('C12/save_annotation/the-given-file-is-copied-with-the-given-symlink-choice', z3.BoolVal(cp[1][:1] == [st.src_file] and (cp[2].get('symlink', cp[1][1] if len(cp[1]) > 1 else None) is st.symlink)))
+        gi = ev[1]
+        e.prove('C12/save_annotation/index-generated-from-the-copy-inside-the-directory-with-the-given-source',
+                z3.BoolVal(gi[1][:1] == [st.copy] and (gi[1][1] if len(gi[1]) > 1 else gi[2].get('source')) is st.source))
+        if self.with_proteome:
+            ck = ev[2]
+            e.prove('C12/save_annotation/coding-status-checked-against-the-given-proteome-with-the-given-flag',
+                    z3.BoolVal(ck[1][:1] == [st.proteome] and (ck[1][1] if len(ck[1]) > 1 else ck[2].get('invalid_protein_as_noncoding')) is st.flag))
+        fi = ev[-3]
+        e.prove('C12/save_annotation/index-file-names-asked-for-the-copy', z3.BoolVal(fi[1][:1] == [st.copy]))
+        e.prove('C12/save_annotation/gene-index-file-then-transcript-index-file-opened-for-writing',
+                z3.BoolVal(ev[-2][1] is st.gene_idx and ev[-1][1] is st.tx_idx and ev[-2][2] in ('w', 'wt') and ev[-1][2] in ('w', 'wt')))
+        e.prove('C12/save_annotation/the-indexed-annotation-is-returned', z3.BoolVal(isinstance(ret, SymObj) and ret.cls == 'AnnoOnDisk12c'))
+
+
+register(type('SaveAnnotationNoProteome', (SaveAnnotation,), dict(with_proteome=False, __doc__=SaveAnnotation.__doc__)))
+
+
+@register
+class LoadAnnotation(Contract):
+    """IndexDir.load_annotation(): an on-disk annotation on the GTF copy of the directory: its handle opened on that file and its index loaded for that
+    file with the source recorded in the metadata"""
+    path, qualname, props = IDX, 'IndexDir.load_annotation', ('C12',)
+
+    def setup(self, I):
+        st = types.SimpleNamespace(log=[])
+        st.copy, st.source = SymObj('AnnotationFile12c'), SymObj('Source12c')
+        st.dir = SymObj('IndexDir', annotation_file=st.copy, genome_file=SymObj('Other12c'), metadata=SymObj('Metadata12c2', source=st.source))
+        st.args = [st.dir]
+        self._cur = st
+        return st
+
+    @property
+    def models(self):
+        c = self
+
+        def inst(reg):
+            L = lambda *x: c._cur.log.append(x)
+            reg.ctor_('GenomicAnnotationOnDisk', lambda I, a, k: SymObj('AnnoOnDisk12c'))
+            reg.method_('AnnoOnDisk12c', 'init_handle', lambda I, o, a, k: L('init_handle', list(a), dict(k)))
+            reg.method_('AnnoOnDisk12c', 'load_index', lambda I, o, a, k: L('load_index', list(a), dict(k)))
+        return (inst,)
+
+    def post_return(self, I, st, ret):
+        ok = [x[0] for x in st.log] == ['init_handle', 'load_index']
+        ok = ok and st.log[0][1][:1] == [st.copy] and st.log[1][1][:1] == [st.copy] and (st.log[1][2].get('source', st.log[1][1][1] if len(st.log[1][1]) > 1 else None) is st.source)
+        I.e.prove('C12/load_annotation/handle-and-index-of-the-GTF-copy-with-the-recorded-source', z3.BoolVal(bool(ok and isinstance(ret, SymObj) and ret.cls == 'AnnoOnDisk12c')))
